@@ -322,6 +322,13 @@ class World:
                     self.new_n += 1
             elif z < 0.9 and intx:
                 script['calls'].append(['getState', r.choice(intx + alld[:1])])
+            elif z < 0.92 and alld:
+                # entity interface: write an existing entity (single or multi state), possibly dropping / adding a context state
+                cds = self.descr_handles(lambda d: d.is_context_descriptor)
+                if cds and r.random() < 0.4:
+                    script['calls'].append(['writeEntity', r.choice(cds), r.randrange(1000), r.choice(['keep', 'drop', 'add'])])
+                elif leafish:
+                    script['calls'].append(['writeEntity', r.choice(leafish), r.randrange(1000), 'keep'])
             elif z < 0.94 and leafish:
                 # two removals on one path of the tree, in either order
                 h = r.choice(leafish)
@@ -543,6 +550,32 @@ class World:
                     return
                 self.mutate_state(st, call[2])
                 self.emit(f'setStateBody {H(call[1])} {self.sbody(st)}', 'ok')
+            elif op == 'writeEntity':
+                _, h, n, how = call
+                try:
+                    ent = m.entities.by_handle(h)
+                except KeyError:
+                    ent = None
+                if ent is None:
+                    return
+                self.mutate_descr(ent.descriptor, n)
+                d = ent.descriptor
+                head = f'writeEntity {H(d.Handle)} {H(d.parent_handle)} {kind_of(d)} {d.DescriptorVersion} {self.dbody(d)} {H(d.source_mds)}'
+                if ent.is_multi_state:
+                    if how == 'drop' and ent.states:
+                        ent.states.pop(sorted(ent.states)[0])
+                    elif how == 'add':
+                        st = ent.new_state(f'cs{self.new_n}')
+                        self.new_n += 1
+                        self.mutate_state(st, n)
+                    for st in ent.states.values():
+                        if how == 'keep':
+                            self.mutate_state(st, n)
+                    self.emit(head + ' multi ' + ' '.join(self.show_c(st) for st in ent.states.values()), 'ok')
+                else:
+                    self.mutate_state(ent.state, n)
+                    self.emit(head + f' single {ent.state.StateVersion} {self.sbody(ent.state)}', 'ok')
+                mgr.write_entity(ent)
             elif op == 'addDescr':
                 _, h, tmpl, with_state = call
                 if tmpl is None:
